@@ -644,7 +644,7 @@ class API:
         level = len(self.subpackage_view)
         for subpkg_name in sorted(
             {
-                p.meta.address.subpackage[0]
+                p.meta.address.subpackage[level]
                 for p in self.protos.values()
                 if len(p.meta.address.subpackage) > level
                 and p.meta.address.subpackage[:level] == self.subpackage_view
